@@ -368,8 +368,13 @@ class Quaternion(SMUserList):
             return Quaternion([q.log().A for q in self])
         norm = self.norm()
         s = math.log(norm)
-        v = math.acos(self.s / norm) * base.unitvec(self.v)
-        return Quaternion(s=s, v=v)
+        theta = math.acos(self.s / norm)
+        u = base.unitvec(self.v)
+        if u is None:
+            # real quaternion: zero vector part has no direction, any axis
+            # serves for a negative real quaternion
+            u = np.r_[1.0, 0, 0] if theta > 0 else np.zeros((3,))
+        return Quaternion(s=s, v=theta * u)
 
     def exp(self):
         r"""
